@@ -186,6 +186,11 @@ def judge(lab, case):
             bad.append(("iteration-order", "list(pipeline) applies %s, the steps in application order are %s" % (names, case["names"])))
     got = _outcome(lambda: pipe.transform(copy.deepcopy(x), copy.deepcopy(o)))
     _cmp(bad, "transform", got, case["res"])
+    if isinstance(x, dict):
+        # a Mapping that is not a dict (what map_values / filter_items ... hand on) is treated like one
+        import types as _types
+
+        _cmp(bad, "transform-mapping-input", _outcome(lambda: pipe.transform(_types.MappingProxyType(copy.deepcopy(x)), copy.deepcopy(o))), case["res"])
     # parameters are read from the options when the pipeline is EVALUATED, not when it is applied
     live = copy.deepcopy(o)
     fn = _outcome(lambda: pipe.evaluate(live))
